@@ -503,6 +503,15 @@ func runC08(args []string) int {
 					jobs <- c08Scenario{id: id, mode: "burst", syms: q, split: 1, cutAt: cut, selRspStatus: 0}
 				}
 			}
+			// the inbound half of the gate while NOT Selected: data with the endpoint's own and with a foreign session id,
+			// before any select, after a deselection, around a select -- Reject reason 4 echoing session id and system bytes
+			for _, q := range [][]sym{{symDataBadSid}, {symDataPrimaryW}, {symDataPrimaryNoW, symDataBadSid, symDataSecondary},
+				{symSelectReq, symDeselectReq, symDataBadSid, symDataPrimaryW}, {symDataBadSid, symSelectReq, symDataBadSid, symDataPrimaryW}} {
+				id++
+				jobs <- c08Scenario{id: id, mode: "barrier", syms: q, selRspStatus: -1}
+				id++
+				jobs <- c08Scenario{id: id, mode: "burst", syms: q, split: 1, selRspStatus: -1}
+			}
 			close(jobs)
 			wg.Wait()
 		}
